@@ -293,7 +293,57 @@ def run_live_orders(case):
         return out
 
 
+def run_live_callbacks(case):
+    """raw-data and custom-event callbacks on a live framework, with an exception injected at one invocation.
+    case: {"n": strategies, "data": [datum dicts...], "inject": {"s": idx, "k": invocation index, "exc": "value"|"flumine"} | None,
+           "custom": [{"raise": bool, "exc": ..}]}"""
+    import types
+    from flumine import config as fcfg
+    from flumine.exceptions import FlumineException
+    betting_client = mock.Mock(); betting_client.username = "u"; betting_client.lightweight = False
+    fw = Flumine(client=clients.BetfairClient(betting_client))
+    got = []
+    class R(BaseStrategy):
+        def __init__(self, idx, **kw):
+            super().__init__(**kw); self.idx = idx; self.k = 0
+        def start(self, flumine):
+            return
+        def process_raw_data(self, clk, publish_time, datum):
+            k = self.k; self.k += 1
+            inj = case.get("inject")
+            if inj and inj["s"] == self.idx and inj["k"] == k:
+                raise (ValueError if inj.get("exc") == "value" else FlumineException)("injected")
+            got.append([self.idx, datum.get("id", datum.get("marketId", datum.get("eventId")))])
+    strategies = []
+    for i in range(case["n"]):
+        st = R(i, market_filter={"marketIds": ["1.1"]}, name="r%d" % i)
+        fw.add_strategy(st)
+        st.streams.append(types.SimpleNamespace(stream_id=777))
+        strategies.append(st)
+    saved = fcfg.raise_errors
+    fcfg.raise_errors = False
+    escaped = None
+    try:
+        try:
+            fw._process_raw_data(events.RawDataEvent((777, "c1", 1700000000000, case["data"])))
+        except Exception as e:
+            escaped = type(e).__name__
+        custom = []
+        for c in case.get("custom", []):
+            def cbk(framework, event, c=c):
+                if c["raise"]:
+                    raise (ValueError if c.get("exc") == "value" else FlumineException)("custom")
+                custom.append("ran")
+            try:
+                fw._process_custom_event(events.CustomEvent(None, cbk))
+            except Exception as e:
+                escaped = "custom:" + type(e).__name__
+    finally:
+        fcfg.raise_errors = saved
+    return {"got": got, "escaped": escaped, "custom": custom}
+
+
 if __name__ == "__main__":
     j = json.load(sys.stdin)
-    fn = {"closure": run_live_closure, "orders": run_live_orders}[j.get("job", "closure")]
+    fn = {"closure": run_live_closure, "orders": run_live_orders, "callbacks": run_live_callbacks}[j.get("job", "closure")]
     print(json.dumps({"out": [fn(c) for c in j["cases"]]}, default=str))
